@@ -64,7 +64,8 @@ def plan(tier, prop):
                             "fallback_initial_host", "bmp_call",
                             "bmp_board_specific_connection", "scp_failure",
                             "context_object_reused",
-                            "context_object_reentered_while_active"],
+                            "context_object_reentered_while_active",
+                            "bmp_board_iterable"],
         "knob_ranges": {"boards": [1, 3, 6, 12], "root_offset": "0-11 each",
                         "eth_down": "0-30 % of boards",
                         "depth": "0-4", "items": "1-12"},
@@ -285,6 +286,14 @@ class CtxEngine(object):
             ("read_across_link", lambda: (a(0), 4 + 4 * t.draw(4)),
              ["x", "y", "link"], {}, "chip"),
             ("send_scp", lambda: (), ["x", "y", "p"], {}, "raw"),
+            ("sdram_alloc_as_filelike", lambda: (4 + 4 * t.draw(20), 0),
+             ["x", "y", "app_id"], {}, "chip+app"),
+            ("get_p2p_routing_table", lambda: (), ["x", "y"], {}, "chip"),
+            ("write_across_link", lambda: (a(0), t.bytes(4 + 4 * t.draw(3))),
+             ["x", "y", "link"], {}, "chip"),
+            ("get_iobuf_bytes", lambda: (), ["p", "x", "y"], {}, "chip+vcpu"),
+            ("wait_for_cores_to_reach_state", lambda: ("run", 0),
+             ["app_id"], {}, "app"),
         ]
 
     def do_mc_call(self, stack):
@@ -495,6 +504,13 @@ class CtxEngine(object):
         vals = {"cabinet": tgt[0], "frame": tgt[1],
                 "board": tgt[2] if len(tgt) == 3 and t.draw(2) else
                 t.draw(24)}
+        if name in ("set_power", "set_led") and t.draw(3) == 0:
+            # several boards of one frame at once
+            bs = sorted({t.draw(24) for _ in range(1 + t.draw(4))})
+            if t.draw(2):
+                bs.reverse()
+            vals["board"] = bs
+            w.probe("bmp_board_iterable")
         resolved, kw, pos = {}, {}, []
         missing = None
         positional_ok = name != "set_led"
@@ -539,6 +555,9 @@ class CtxEngine(object):
             return
         self.judged += 1
         cab, fr, bd = resolved["cabinet"], resolved["frame"], resolved["board"]
+        boards = list(bd) if isinstance(bd, (list, tuple)) else [bd]
+        mask = sum(1 << b for b in boards)
+        bd = boards[0]          # set_led addresses the first board named
         if (cab, fr, bd) in self.bmp_hosts:
             want_ip = self.bmp_hosts[(cab, fr, bd)]
             w.probe("bmp_board_specific_connection")
@@ -558,18 +577,18 @@ class CtxEngine(object):
                     w.violate("CONN", "%s sent to %s, expected %s"
                               % (label, peer_ip, want_ip2),
                               kind="wrong-connection", method="bmp." + name)
-                if d.arg(1) != (1 << bd):
+                if d.arg(1) != mask:
                     w.violate("WIRE", "%s: board mask %#x, the caller named "
-                              "board %d" % (label, d.arg(1) or 0, bd),
+                              "boards %r" % (label, d.arg(1) or 0, boards),
                               kind="wrong-board", method="bmp." + name)
             else:
                 if peer_ip != want_ip:
                     w.violate("CONN", "%s sent to %s, expected %s"
                               % (label, peer_ip, want_ip),
                               kind="wrong-connection", method="bmp." + name)
-                if name == "set_led" and d.arg(1) != (1 << bd):
+                if name == "set_led" and d.arg(1) != mask:
                     w.violate("WIRE", "%s: board mask %#x, the caller named "
-                              "board %d" % (label, d.arg(1) or 0, bd),
+                              "boards %r" % (label, d.arg(1) or 0, boards),
                               kind="wrong-board", method="bmp." + name)
             if (d.dest_x, d.dest_y) != (0, 0) or d.dest_cpu != want_cpu:
                 w.violate("WIRE", "%s: datagram addressed to (%d, %d, %d), "
